@@ -345,6 +345,36 @@ theorem errors_only_out_of_range_gen (d : RD) (x : Temporal) (hd : InDomain d) (
   · exact Or.inl h'.1
   · exact Or.inr h'.1
 
+/-- **gen_initKw_eq_mk.** The keyword constructor re-translated from `__init__` on this run (yearday / nlyearday
+    scan, weekday coercion, `_fix`) IS the model `mk`, for every keyword set and every outcome (value, ValueError,
+    IndexError). -/
+theorem gen_initKw_eq_mk (kw : Kw) : Gen.initKw kw = mk kw := RDG.initKw_eq kw
+
+/-- **yearday_spec_partial_gen.** `yearday_spec_partial` about the translated constructor and the translated `__add__`. -/
+theorem yearday_spec_partial_gen (y : Int) (x : Temporal) (hx : x.Valid) (h1 : 1 ≤ y) (h2 : y ≤ 365) :
+    ∃ d res, Gen.initKw { yearday := some y } = .ok d ∧ Gen.addDt d x = .ok res ∧
+      res.kind = x.kind ∧ res.t.Valid ∧ res.t.y = x.t.y ∧
+      res.t.ordinal = Cal.toOrdinal x.t.y 1 1 + (y - 1) ∧
+      res.t.hh = x.t.hh ∧ res.t.mm = x.t.mm ∧ res.t.ss = x.t.ss ∧ res.t.us = x.t.us := by
+  simpa only [RDG.initKw_eq, RDG.addDt_eq] using yearday_spec_partial y x hx h1 h2
+
+/-- **nlyearday_spec_gen.** -/
+theorem nlyearday_spec_gen (n : Int) (x : Temporal) (hx : x.Valid) (h1 : 1 ≤ n) (h2 : n ≤ 365) :
+    ∃ d res m dd, Gen.initKw { nlyearday := some n } = .ok d ∧ Gen.addDt d x = .ok res ∧
+      res.kind = x.kind ∧ res.t.Valid ∧
+      Cal.dbmTable m + dd = n ∧ 1 ≤ m ∧ m ≤ 12 ∧ 1 ≤ dd ∧ dd ≤ nlDim m ∧
+      res.t.y = x.t.y ∧ res.t.m = m ∧ res.t.d = dd ∧
+      res.t.ordinal = Cal.toOrdinal x.t.y 1 1 + (n - 1) + (if n ≥ 60 ∧ Cal.isLeap x.t.y = true then 1 else 0) ∧
+      res.t.hh = x.t.hh ∧ res.t.mm = x.t.mm ∧ res.t.ss = x.t.ss ∧ res.t.us = x.t.us := by
+  simpa only [RDG.initKw_eq, RDG.addDt_eq] using nlyearday_spec n x hx h1 h2
+
+/-- **yearday366_defect_gen.** The known finding D-C03-yearday366 is a theorem about the TRANSLATED code:
+    in every leap year the translated constructor and `__add__` give day 365 for `yearday=366`. -/
+theorem yearday366_defect_gen (x : Temporal) (hx : x.Valid) (hl : Cal.isLeap x.t.y = true) :
+    ∃ d res, Gen.initKw { yearday := some 366 } = .ok d ∧ Gen.addDt d x = .ok res ∧
+      res.t.ordinal = Cal.toOrdinal x.t.y 1 1 + 364 ∧ res.t.ordinal ≠ Cal.toOrdinal x.t.y 1 1 + (366 - 1) := by
+  simpa only [RDG.initKw_eq, RDG.addDt_eq] using yearday366_defect x hx hl
+
 -- non-vacuity / sanity
 example : applyTo { months := 1 } ⟨.date, { y := 2000, m := 1, d := 31 }⟩
     = .ok ⟨.date, { y := 2000, m := 2, d := 29 }⟩ := by decide +kernel
